@@ -20,6 +20,8 @@ METAS = {
     'hexcolor': ({}, {'color': '#00ff7f', 'dash': 1, 'dashlist': '8 3'}),
     'font': ({'text': 'T'}, {'font': 'helvetica 12 bold roman', 'textangle': 30}),
     'point': ({}, {'point': 'x 7', 'width': 2}),
+    'quote1': ({'text': 'r = 30"'}, {}),
+    'quote2': ({'text': '"M31" core', 'tag': ["scale bar 5'"]}, {}),
     'flags': ({'select': 0, 'highlite': 1, 'fixed': 1, 'move': 0, 'source': 1}, {'textrotate': 0}),
 }
 
@@ -79,6 +81,14 @@ def build_sky(kind, frame, meta, visual, ang):
     if kind in ('ellipse', 'rectangle'):
         cls = R.EllipseSkyRegion if kind == 'ellipse' else R.RectangleSkyRegion
         return cls(c, 7.25 * a, 0.05 * u.arcmin, angle=ang, meta=meta, visual=visual)
+    if kind in ('ellipse-angle', 'annulus-ellipse-angle', 'circle-angle'):
+        from astropy.coordinates import Angle
+        if kind == 'circle-angle':
+            return R.CircleSkyRegion(c, Angle(3.5, 'arcsec'), meta=meta, visual=visual)
+        if kind == 'ellipse-angle':
+            return R.EllipseSkyRegion(c, Angle(7.25, 'arcsec'), Angle(0.05, 'arcmin'), angle=Angle(ang), meta=meta, visual=visual)
+        return R.EllipseAnnulusSkyRegion(c, Angle(2, 'arcsec'), Angle(5, 'arcsec'), Angle(1, 'arcsec'), Angle(3, 'arcsec'),
+                                         angle=Angle(ang), meta=meta, visual=visual)
     if kind == 'polygon':
         sc = SkyCoord(c.spherical.lon.deg + np.array([0, 0.002, 0.001]), c.spherical.lat.deg + np.array([0, 0, 0.002]), unit='deg', frame=frame)
         return R.PolygonSkyRegion(sc, meta=meta, visual=visual)
@@ -286,6 +296,8 @@ def harnesses(tier):
     for fr in ('icrs', 'fk5', 'fk4', 'galactic', 'barycentricmeanecliptic'):
         for kind in (PIX_SHAPES if not q else ['circle', 'ellipse', 'polygon', 'annulus-ellipse', 'line', 'text', 'rectangle']):
             hs.append((f'sky/{kind}/{fr}', P(h_roundtrip, [kind], ['tags' if kind != 'text' else 'plain'], [0 if kind == 'circle' else 'absent'], 6, 2, [fr])))
+    for kind in ('ellipse-angle', 'annulus-ellipse-angle', 'circle-angle'):
+        hs.append((f'sky/{kind}/icrs', P(h_roundtrip, [kind], ['plain'], ['absent'], 6, 1, ['icrs'])))
     lists = [
         (['circle', 'ellipse'], ['visual', 'visual'], ['absent', 'absent'], ['image', 'image']),             # shared meta -> global line
         (['circle', 'rectangle'], ['visual', 'text'], [0, 0], ['image', 'image']),                           # all excluded
